@@ -29,6 +29,7 @@ func runC08(c *Ctx) {
 	p := c.P
 	ruleRoutableAPIDelegates(c, "R08.5", "ServeErrorFor")
 	ruleRoutableAPIDelegates(c, "R08.1", "ProducersFor", "DefaultProduces")
+	ruleRegistryEntriesByOwnKey(c, "R08.1", "(*rt/middleware/untyped.API).ProducersFor", "producers")
 	ruleOffersDefaultLast(c, "R08.2")
 	ruleAuthorizeErrorsVerbatim(c, "R08.5")
 	ruleNormalizeOfferCuts(c, "R08.1")
